@@ -257,6 +257,8 @@ class DocModel:
 #   ["col", c, c_abs]                  CELL_REFERENCE_NODE with only AST_column (whole column)
 #   ["tract", r0, r1, c0, c1, ra0, ra1, ca0, ca1, enc]   COLON_TRACT_NODE; r0=r1=None: column span,
 #                                      c0=c1=None: row span; enc=1 writes range_end even if equal
+#   ["colon", r0, c0, ra0, ca0, r1, c1, ra1, ca1]        two CELL_REFERENCE_NODEs joined by a COLON_NODE
+#                                      (how Numbers itself stores most rectangles)
 def stored_target(spec):
     """Normal form of what the node stores: (shape, begin, end) with shape 'cells' | 'rows' | 'cols';
     begin/end = (row, col, row_abs, col_abs) with None on an open axis. End-points in stored order."""
@@ -273,6 +275,9 @@ def stored_target(spec):
         _, c, ca = spec
         p = (None, c, None, bool(ca))
         return ("cols", p, p)
+    if k == "colon":
+        _, r0, c0, ra0, ca0, r1, c1, ra1, ca1 = spec
+        return ("cells", (r0, c0, bool(ra0), bool(ca0)), (r1, c1, bool(ra1), bool(ca1)))
     _, r0, r1, c0, c1, ra0, ra1, ca0, ca1, _enc = spec
     if c0 is None:
         return ("rows", (r0, None, bool(ra0), None), (r1, None, bool(ra1), None))
@@ -296,6 +301,16 @@ def _pb():
     from numbers_parser.generated import TSCEArchives_pb2 as TSCE
 
     return TSCE, TSCE.ASTNodeArrayArchive, TSCE.ASTNodeArrayArchive.ASTNodeArchive
+
+
+def build_nodes(spec, host_rc, target_uuid_pb=None):
+    """The post-fix node list that stores `spec` (one node, or two cell references and a COLON_NODE)."""
+    if spec[0] == "colon":
+        _TSCE, T, N = _pb()
+        a = build_node(["cell"] + list(spec[1:5]), host_rc, target_uuid_pb)
+        b = build_node(["cell"] + list(spec[5:9]), host_rc, target_uuid_pb)
+        return [a, b, N(AST_node_type=T.COLON_NODE)]
+    return [build_node(spec, host_rc, target_uuid_pb)]
 
 
 def build_node(spec, host_rc, target_uuid_pb=None):
@@ -433,8 +448,7 @@ class Built:
     def render(self, host, rc, target, spec):
         """Store `spec` (pointing into table `target`) in cell rc of table `host`; return Cell.formula."""
         host, target = tuple(host), tuple(target)
-        node = build_node(spec, rc, None if target == host else self.uuid_pb[target])
-        self.set_nodes(host, [node])
+        self.set_nodes(host, build_nodes(spec, rc, None if target == host else self.uuid_pb[target]))
         return self.read(host, rc)
 
     def header_sanity(self):
@@ -514,6 +528,8 @@ def judge(doc: DocModel, host, host_rc, target, spec, text):
     if parsed is None:
         return [("form", "not-a-reference", f"{text!r} has no reading as a reference")]
     quals, halves = parsed
+    if text == f"{tgt.sheet_name}::{tgt.name}:{tgt.name}":
+        return [("form", "colon-join-drops-cell-addresses", f"{text!r}: sheet and table name of the stored table, but no cell addresses")]
     kinds = [h[0] for h in halves]
     is_label = "label" in kinds or (len(halves) == 1 and kinds[0] == "rownum")
 
@@ -701,6 +717,7 @@ def refs_full(coords, encs=(0,)):
                 ra0, ra1, ca0, ca1 = bits
                 for enc in encs if (r0 == r1 and ra0 == ra1) or (c0 == c1 and ca0 == ca1) else (0,):
                     out.append(["tract", r0, r1, c0, c1, ra0, ra1, ca0, ca1, enc])
+                out.append(["colon", r0, c0, ra0, ca0, r1, c1, ra1, ca1])
     return out
 
 
@@ -718,6 +735,8 @@ def refs_qualification(body):
         out.append(["cell", hi, lo, ra, ca])
         out.append(["tract", lo, hi, lo, hi, ra, ra, ca, ca, 0])
         out.append(["tract", hi, lo, hi, hi, ra, not ra, ca, not ca, 0])
+        out.append(["colon", lo, lo, ra, ca, hi, hi, ca, ra])
+        out.append(["colon", hi, lo, ra, not ca, lo, hi, ra, ca])
     for i in body:
         for a in B:
             out.append(["row", i, a])
@@ -736,7 +755,8 @@ def refs_qualification_small(body):
     B = (False, True)
     lo, hi = body[0], body[-1]
     out = [["cell", lo, hi, False, False], ["cell", hi, lo, True, True], ["cell", lo, lo, False, True], ["cell", hi, hi, True, False],
-           ["tract", lo, hi, lo, hi, False, False, False, False, 0], ["tract", hi, lo, hi, hi, True, False, False, True, 0]]
+           ["tract", lo, hi, lo, hi, False, False, False, False, 0], ["tract", hi, lo, hi, hi, True, False, False, True, 0],
+           ["colon", lo, lo, False, False, hi, hi, False, False], ["colon", hi, lo, True, False, lo, hi, False, True]]
     for i in body:
         for a in B:
             out.append(["row", i, a])
